@@ -191,12 +191,47 @@ def validate_trace(module, cfg, trace, tmp, max_rejections=8, timeout=900):
     result = {'executions': len(segs), 'accepted': 0, 'rejections': [], 'states': 0, 'lines': len(lines)}
     k = 0
     CHUNK = 400   # executions per TLC run: a thorough-tier trace of thousands of executions does not fit one JVM heap
+    result['skipped_search_limit'] = 0
+    skip = set()  # executions whose validation alone exceeds the search limit
     while k < len(segs):
-        hi = min(k + CHUNK, len(segs))          # this run validates executions k .. hi-1
+        if k in skip:
+            k += 1
+            continue
+        hi = min(k + CHUNK, len(segs))          # this run validates executions k .. hi-1 (up to the next skipped one)
+        nxt = [x for x in skip if k < x < hi]
+        if nxt:
+            hi = min(nxt)
         part = os.path.join(tmp, 'part.%d.ndjson' % k)
         with open(part, 'w') as f:
             f.write('\n'.join(lines[segs[k][0]:segs[hi - 1][1]]) + '\n')
-        r = tlc_trace_once(module, cfg, part, tmp, timeout=timeout)
+        try:
+            r = tlc_trace_once(module, cfg, part, tmp, timeout=timeout if len(segs) <= CHUNK else max(150, (hi - k) // 2))
+        except Infra:
+            # Some execution makes TLC's search over the unlogged steps explode (e.g. many equally ranked candidates:
+            # factorially many rankings).  It must not take the whole run down: every execution of the chunk is tried
+            # alone (8 at a time, 60 s each); those that still exceed the limit are SKIPPED and counted in the
+            # evidence - neither accepted nor rejected.
+            os.unlink(part)
+            from concurrent.futures import ThreadPoolExecutor
+
+            def alone(i):
+                p1 = os.path.join(tmp, 'one.%d.ndjson' % i)
+                with open(p1, 'w') as f1:
+                    f1.write('\n'.join(lines[segs[i][0]:segs[i][1]]) + '\n')
+                try:
+                    tlc_trace_once(module, cfg, p1, tmp, timeout=60)
+                    return None
+                except Infra:
+                    return i
+                finally:
+                    os.unlink(p1)
+            with ThreadPoolExecutor(max_workers=8) as ex:
+                bad = [i for i in ex.map(alone, range(k, hi)) if i is not None]
+            if not bad:
+                raise
+            skip.update(bad)
+            result['skipped_search_limit'] += len(bad)
+            continue
         os.unlink(part)
         result['states'] += r['distinct']
         if r['accepted']:
@@ -364,6 +399,7 @@ def trace_family_check(pid, tier, tmp, replay, *, variant, driver, driver_args, 
            'mc_exhaustive_within_constants': bool(mc_res.get('completed')),
            'witnesses_reached': sorted(wit_res.get('seen', [])),
            'trace_executions': val['executions'], 'trace_events': val['lines'], 'trace_rejections': len(val['rejections']),
+           'trace_executions_skipped_search_limit': val.get('skipped_search_limit', 0),
            'build_variant': variant, 'exhaustive': False}
     if extra_cov:
         cov.update(extra_cov(lines))
